@@ -287,12 +287,15 @@ func modelField(ans, name string) (out string, evs []string) {
 }
 
 var collidingNames []string
+var collideOnce sync.Once
 
 // names that share the first 12 bits of sha1 (same lock bucket and level-1 directory of the file store)
 func collidePool() []string {
-	if collidingNames != nil {
-		return collidingNames
-	}
+	collideOnce.Do(computeCollidePool)
+	return collidingNames
+}
+
+func computeCollidePool() {
 	h := func(s string) string { x := sha1.Sum([]byte(s)); return hex.EncodeToString(x[:])[:3] }
 	want := h("alpha")
 	res := []string{"alpha"}
@@ -303,7 +306,6 @@ func collidePool() []string {
 		}
 	}
 	collidingNames = res
-	return res
 }
 
 func storeNames(r *rand.Rand) []string {
@@ -630,12 +632,6 @@ func runStoreHistory(c *core.Ctx, m *core.Model, r *rand.Rand, p storeProfile, h
 	}
 }
 
-func min(a, b int) int {
-	if a < b {
-		return a
-	}
-	return b
-}
 
 func runStoreProfile(c *core.Ctx, p storeProfile) {
 	n := c.Scale(p.histories[0], p.histories[1])
